@@ -752,6 +752,23 @@ def run(ctx):
             else:
                 it = how.split(':', 1)[1]
                 loops = [n for n in ast.walk(fn) if isinstance(n, (ast.For, ast.comprehension)) and norm(n.iter) == it and isinstance(n.target, ast.Name)]
+                if not loops:
+                    # the loop may live in a method the handler hands the node to (`self._add_ctes(query, node)`): any loop of the class over `<param>.<field>`
+                    fld = it.split('.', 1)[1] if '.' in it else None
+                    for m2 in fns.values():
+                        params2 = {a.arg for a in m2.args.args}
+                        loops += [n for n in ast.walk(m2) if isinstance(n, (ast.For, ast.comprehension)) and isinstance(n.target, ast.Name) and fld is not None
+                                  and isinstance(n.iter, ast.Attribute) and n.iter.attr == fld and isinstance(n.iter.value, ast.Name) and n.iter.value.id in params2]
+                if not loops:
+                    # ... or the list itself is handed over: `self._add_ctes(query, node.cte)` and the loop runs over that parameter
+                    for c_ in ast.walk(fn):
+                        if isinstance(c_, ast.Call) and isinstance(c_.func, ast.Attribute) and norm(c_.func.value) == 'self' and c_.func.attr in fns:
+                            m2 = fns[c_.func.attr]
+                            for i_, a_ in enumerate(c_.args):
+                                if norm(a_) == it and i_ + 1 < len(m2.args.args):
+                                    pn = m2.args.args[i_ + 1].arg
+                                    loops += [n for n in ast.walk(m2) if isinstance(n, (ast.For, ast.comprehension)) and isinstance(n.target, ast.Name)
+                                              and isinstance(n.iter, ast.Name) and n.iter.id == pn]
                 ctx.need(loops, f'{fname}: no loop over {it} (elements are {cn})')
                 for lp in loops:
                     region = lp.body if isinstance(lp, ast.For) else [lp._parent]
